@@ -61,6 +61,9 @@ pub enum InPlugin {
     LoadBalancerHaversine,
     /// numeric custom weight read from this column
     LoadBalancerCustom { column: String },
+    /// categorical custom weight: the column holds one of the names light / medium / heavy,
+    /// anything else weighs the default, if there is one
+    LoadBalancerCategorical { column: String, with_default: bool },
     Inject { key: String, value: Value, overwrite: Option<bool> },
 }
 
@@ -440,6 +443,16 @@ pub fn write_app(spec: &AppSpec, dir: &CaseDir) -> std::io::Result<AppFiles> {
             }
             InPlugin::LoadBalancerCustom { column } => {
                 json!({"type": "load_balancer", "weight_heuristic": {"type": "custom", "custom_weight_type": {"type": "numeric", "column_name": column}}})
+            }
+            InPlugin::LoadBalancerCategorical { column, with_default } => {
+                let mut cw = serde_json::Map::new();
+                cw.insert("type".into(), json!("categorical"));
+                cw.insert("column_name".into(), json!(column));
+                cw.insert("mapping".into(), json!({"light": 1.0, "medium": 5.0, "heavy": 25.0}));
+                if *with_default {
+                    cw.insert("default".into(), json!(2.0));
+                }
+                json!({"type": "load_balancer", "weight_heuristic": {"type": "custom", "custom_weight_type": Value::Object(cw)}})
             }
             InPlugin::Inject { key, value, overwrite } => {
                 let mut o = serde_json::Map::new();
